@@ -9,6 +9,7 @@ hidden randomness is a hard error, never silently sampled.
 from __future__ import annotations
 from fractions import Fraction
 import itertools
+import math
 import numpy
 
 TWO53 = 2 ** 53
@@ -179,8 +180,10 @@ def threshold_menu(p):
         menu.append(((TWO53 - 1) / TWO53, Fraction(0), True))
         menu.append((0.0, Fraction(0), True))
     else:
-        above = (1.0 + p) / 2.0
-        below = p / 2.0
+        # snap to the grid of values numpy's uniform(0,1) can return (multiples of 2^-53)
+        above = math.ceil((1.0 + p) / 2.0 * TWO53) / TWO53
+        below = math.floor(p / 2.0 * TWO53) / TWO53
+        assert below < p <= above < 1.0
         menu.append((above, 1 - P, False))
         menu.append((below, P, True))
         if Fraction(p) * TWO53 == int(Fraction(p) * TWO53):  # p itself is reachable
